@@ -383,17 +383,15 @@ class Spec:
         return AnyView(t)
 
     def old(self, x):
-        if isinstance(x, ObjView):
-            return ObjView(self, x.t, x.ty, self.old_heap)
-        if isinstance(x, SeqView):
-            return SeqView(self, x.t, x.ty, self.old_heap)
+        for cls in (ObjView, SeqView, MapView, TupleView):
+            if isinstance(x, cls):
+                return cls(self, x.t, x.ty, self.old_heap)
         return x
 
     def new(self, x):
-        if isinstance(x, ObjView):
-            return ObjView(self, x.t, x.ty, self.new_heap)
-        if isinstance(x, SeqView):
-            return SeqView(self, x.t, x.ty, self.new_heap)
+        for cls in (ObjView, SeqView, MapView, TupleView):
+            if isinstance(x, cls):
+                return cls(self, x.t, x.ty, self.new_heap)
         return x
 
     def unchanged(self, obj, *fields):
@@ -404,6 +402,16 @@ class Spec:
         fi = self.ctx.repo.get(fn_key)
         sv = SV(obj.t, obj.ty) if not isinstance(obj, SV) else obj
         return self.ctx.to_val(BoundMethod(sv, fi)).t
+
+    def for_each(self, name, body):
+        """forall index j: body(j) - schematic: where the clause is to be PROVED it is stated for a fresh arbitrary constant
+        (so that fold unfoldings and lemma instances mentioned by body are instantiated at it); where it is ASSUMED it is
+        the universally quantified formula"""
+        if getattr(self, "mode", "assume") == "prove":
+            from .engine import fresh
+
+            return _b(body(fresh(name, z3.IntSort())))
+        return self.forall(name, body)
 
     def any_index(self, name="j_any"):
         """a fresh arbitrary index: a clause stated for it holds for every index (the constant is unconstrained)"""
